@@ -57,6 +57,21 @@ class NotTransformedError(Exception):
     """An expected transformation was not applied."""
 
 
+def drop_internal_frames(exception: BaseException, count: int) -> None:
+    """Drop the first ``count`` (internal) frames from the exception's traceback, when the exception allows it."""
+    traceback = exception.__traceback__
+    for _ in range(count):
+        if traceback is None:
+            return
+        traceback = traceback.tb_next
+    try:
+        exception.__traceback__ = traceback
+    except Exception:
+        # Some exception types forbid attribute assignment (e.g. frozen dataclasses); keep the full traceback
+        # rather than replacing the exception that is being reported.
+        pass
+
+
 def create_chained_call_error(call: Call, exception: Exception) -> CallError:
     call_error = CallError(call)
     call_error.__cause__ = exception
